@@ -50,10 +50,10 @@ def change_origin_at(rng, spec, min_depth=0):
     path, s = rng.choice(pos)
     _, c, p, k, o, key = s
     no = fqn_twin(rng, o) if rng.random() < 0.4 else None
-    if no is None or (type(no) is type(o) and no == o):
+    if no is None or zoo.struct_eq(no, o):
         for _ in range(10):
             no = zoo.gen_origin(rng)
-            if not (type(no) is type(o) and no == o):
+            if not zoo.struct_eq(no, o):
                 break
     return zoo.spec_replace(spec, path, ("node", c, p, k, no, key)), len(path)
 
@@ -67,7 +67,7 @@ def origins_agree(a, b, ma=None, mb=None) -> bool:
         m[s[5]] = s
         return s
     a, b = res(a, ma), res(b, mb)
-    if not (type(a[4]) is type(b[4]) and a[4] == b[4]):
+    if not zoo.struct_eq(a[4], b[4]):
         return False
     for name, x in a[3].items():
         y = b[3].get(name)
@@ -130,19 +130,20 @@ def directed_cases(rng, n):
                 x = zoo.Un(x, origin=o[1])
             return x
         depth = rng.choice([0, 1, 2])
-        shared = inner(False, depth)
-        a = zoo.Bin(shared, shared, origin=o[0])
-        which = rng.choice(["none", "first", "second"])
-        b = zoo.Bin(inner(which == "first", depth), inner(which == "second", depth), origin=o[0])
-        want = which == "none"
-        got = (a == b, b == a, a != b, b != a)
-        fail = None
-        if got != (want, want, not want, not want):
-            fail = (f"(a == b, b == a, a != b, b != a) = {got}, expected {(want, want, not want, not want)}: a holds one object at "
-                    f"both positions, b two separate equal nodes; origin changed below the {which} one")
-        yield Case("directed:shared-vs-separate", None, None, True,
-                   f"a=Bin(x, x) with x shared (wrapped {depth}x), b=Bin(x1, x2) separate copies, origin of a grandchild changed in: {which}",
-                   oracle_fail=fail, sig="eq|directed|shared-vs-separate")
+        for which in ("none", "first", "second"):
+            shared = inner(False, depth)
+            a = zoo.Bin(shared, shared, origin=o[0])
+            b = zoo.Bin(inner(which == "first", depth), inner(which == "second", depth), origin=o[0])
+            want = which == "none"
+            got = (a == b, b == a, a != b, b != a)
+            fail = None
+            if got != (want, want, not want, not want):
+                fail = (f"(a == b, b == a, a != b, b != a) = {got}, expected {(want, want, not want, not want)}: a holds one object at "
+                        f"both positions, b two separate equal nodes; origin changed below the {which} one")
+            yield Case("directed:shared-vs-separate", None, None, True,
+                       f"a=Bin(x, x) with x shared (wrapped {depth}x), b=Bin(x1, x2) separate copies, origin of a grandchild changed in: {which}",
+                       oracle_fail=fail, sig="eq|directed|shared-vs-separate")
+            del shared, a, b
         # (3) two distinct objects with the SAME id (the id encodes only the node's own content / origin and its direct
         #     children's): a replace() that keeps the id, or a rebuild after detach; origins differ at depth >= 2
         oa, ob = zoo.gen_origin(rng), zoo.gen_origin(rng)
